@@ -172,6 +172,7 @@ def match_values(vec_a, vec_b, collocation_distance=1e-4) -> np.ndarray:
     nearests = np.c_[ind, ind - 1]
     # A query value matches one stored value at most: the nearer of its two neighbours
     distances = np.abs(vec_a[ind_sort][nearests] - vec_b[:, None])
+    distances[np.isnan(distances)] = np.inf
     closest = np.argmin(distances, axis=1)
     rows = np.arange(distances.shape[0])
     match = np.where(distances[rows, closest] < collocation_distance)[0]
